@@ -17,10 +17,11 @@ Definition dCop : dec cop :=
   let* t := dZ in
   if t =? 1 then
     let* ne := dBool in let* lb := dZ in let* ac := dZ in let* am := dZ in
-    let* pe := dBool in let* po := dZ in let* uc := dZ in let* um := dZ in
-    ret (OSample ne lb ac am pe po uc um)
+    let* pe := dBool in let* po := dZ in let* uc := dZ in let* um := dZ in let* ps := dZ in
+    ret (OSample ne lb ac am pe po uc um ps)
   else if t =? 2 then
-    let* ne := dBool in let* lb := dZ in let* an := dOpt (dList dZ) in ret (OReport ne lb an)
+    let* ne := dBool in let* lb := dZ in let* an := dOpt (dList dZ) in
+    let* ac := dZ in let* am := dZ in ret (OReport ne lb an ac am)
   else if t =? 3 then
     let* k := dZ in let* l := dList dZ in ret (ORefresh k l)
   else fail.
@@ -53,7 +54,7 @@ Definition dPop : dec pop :=
   let* t := dZ in
   if t =? 1 then
     let* ne := dBool in let* pe := dBool in let* po := dZ in let* uc := dZ in let* um := dZ in
-    ret (PSample ne pe po uc um)
+    let* ps := dZ in ret (PSample ne pe po uc um ps)
   else if t =? 2 then let* f := dZ in ret (PReport f)
   else if t =? 3 then let* k := dZ in let* l := dList dZ in ret (PTypes k l)
   else if t =? 4 then let* en := dBool in let* ne := dBool in let* f := dZ in ret (PReporterCfg en ne f)
@@ -73,8 +74,8 @@ Definition count_true (l : list (Z * bool)) : Z := Z.of_nat (length (filter (fun
 
 Definition entry (sel : Z) (toks : list Z) : list Z :=
   match sel with
-  (* calculator history: ratio, pods, ops *)
-  | 1 => match run_dec (let* r := dZ in let* ps := dList dPod in let* ops := dList dCop in ret (r, ps, ops)) toks with
+  (* calculator history: ratio, pod populations, ops *)
+  | 1 => match run_dec (let* r := dZ in let* ps := dList (dList dPod) in let* ops := dList dCop in ret (r, ps, ops)) toks with
          | Some (r, ps, ops) =>
              let '(s, outs) := crun r ps cinit ops in
              flat_map eCout outs ++ tag 4 ++ eList ePair (c_queue s)
@@ -90,14 +91,16 @@ Definition entry (sel : Z) (toks : list Z) : list Z :=
   | 3 => match run_dec (let* ps := dList dPod in let* fl := dList dBool in let* ne := dZ in ret (ps, fl, ne)) toks with
          | Some (ps, fl, ne) =>
              match cleanup ne (ps, fl) with
-             | ClDone err rounds calls s =>
-                 tag 21 ++ [err] ++ eNat rounds ++ eList eCall calls ++ eList eZ (map p_id (fst s)) ++
+             | ClDone err rounds passes s =>
+                 tag 21 ++ [err] ++ eNat rounds ++
+                 eList (fun p => eList eCall (fst p) ++ eList eCall (snd p)) passes ++
+                 eList eZ (map p_id (fst s)) ++
                  eNat (length (snd s))
              | ClFuel => tag 29
              end
          | None => bad_input end
   (* whole pipeline: ratio, pods, initial node, steps; the queue is printed after every step *)
-  | 4 => match run_dec (let* r := dZ in let* ps := dList dPod in let* n := dNode in
+  | 4 => match run_dec (let* r := dZ in let* ps := dList (dList dPod) in let* n := dNode in
                         let* ops := dList dPop in ret (r, ps, n, ops)) toks with
          | Some (r, ps, n, ops) =>
              (fix go (s : pstate) (l : list pop) : list Z :=
@@ -114,19 +117,26 @@ Definition entry (sel : Z) (toks : list Z) : list Z :=
            | Some (r, po, ps, ac, am, uc, um, g) => eBool (law_sample r po ps ac am uc um g)
            | None => bad_input end
   | 102 => match run_dec (let* q := dList (dPair dZ dZ) in let* cfg := dList dZ in
-                          let* an := dOpt (dList dZ) in let* ev := dOpt (dPair dZ dZ) in ret (q, cfg, an, ev)) toks with
-           | Some (q, cfg, an, ev) => eBool (law_report q cfg an ev)
+                          let* an := dOpt (dList dZ) in let* r := dZ in let* ac := dZ in let* am := dZ in
+                          let* ev := dOpt (dPair dZ dZ) in ret (q, cfg, an, r, ac, am, ev)) toks with
+           | Some (q, cfg, an, r, ac, am, ev) => eBool (law_report q cfg an r ac am ev)
            | None => bad_input end
   | 103 => match run_dec (let* r := dZ in let* ps := dList dPod in
                           let* ss := dList (let* a := dZ in let* b := dZ in let* c := dZ in let* d := dZ in ret (a, b, c, d)) in
-                          let* evs := dList (dPair dZ dZ) in ret (r, ps, ss, evs)) toks with
+                          let* evs := dList (let* a := dZ in let* b := dZ in let* c := dZ in let* d := dZ in ret (a, b, c, d)) in
+                          ret (r, ps, ss, evs)) toks with
            | Some (r, ps, ss, evs) => eBool (law_history r ps ss evs)
+           | None => bad_input end
+  | 104 => match run_dec (let* r := dZ in let* ac := dZ in let* am := dZ in let* ev := dPair dZ dZ in
+                          ret (r, ac, am, ev)) toks with
+           | Some (r, ac, am, ev) => eBool (law_event_current r ac am ev)
            | None => bad_input end
   | 110 => match run_dec (let* res := dZ in let* ps := dList dPod in let* cs := dList dCall in
                           let* af := dList dZ in ret (res, ps, cs, af)) toks with
            | Some (res, ps, cs, af) => eBool (law_evict res ps cs af)
            | None => bad_input end
-  | 111 => match run_dec (let* ps := dList dPod in let* cs := dList dCall in
+  | 111 => match run_dec (let* ps := dList dPod in
+                          let* cs := dList (dPair (dList dCall) (dList dCall)) in
                           let* af := dList dZ in ret (ps, cs, af)) toks with
            | Some (ps, cs, af) => eBool (law_cleanup ps cs af)
            | None => bad_input end
